@@ -77,8 +77,9 @@ def havoc_loop(ex, st, body, extra_names=(), bind=None):
     names = assigned_names(body) | mutated_names(body) | set(extra_names)
     W = {FIELD_ALIAS.get(f, f) for f in stored_fields(body) if FIELD_ALIAS.get(f, f) in FIELDS}
     trace = False
+    G = set()         # ghost variables (z3-valued) that the body changes
     for _round in range(6):
-        h = _havoc(st, names, W, trace)
+        h = _havoc(st, names, W, trace, G)
         n_ob = len(ex.obligations)
         saved = (ex.unreachable, ex.feas_checks)
         ex.discovery = getattr(ex, 'discovery', 0) + 1
@@ -90,24 +91,35 @@ def havoc_loop(ex, st, body, extra_names=(), bind=None):
         finally:
             ex.discovery -= 1
             del ex.obligations[n_ob:]
-        W2, trace2 = set(W), trace
+        W2, trace2, G2 = set(W), trace, set(G)
         for e in ends:
+            for gname, gval in e.ghost.items():
+                hv = h.ghost.get(gname)
+                if is_expr(gval) and (hv is None or not (is_expr(hv) and gval.eq(hv))): G2.add(gname)
             for comp, arr in e.heap.items():
                 base = h.heap.get(comp)
-                if base is None or not arr.eq(base): W2.add(comp.split('#')[0])
+                if base is None: base = Const('H_' + comp, arr.sort())      # component first read inside the body
+                if not arr.eq(base): W2.add(comp.split('#')[0])
             if not (e.tr.eq(h.tr) and e.tn.eq(h.tn)): trace2 = True
-        if W2 == W and trace2 == trace: break
-        W, trace = W2, trace2
+        if W2 == W and trace2 == trace and G2 == G: break
+        W, trace, G = W2, trace2, G2
     else:
         raise Unsupported('loop frame discovery did not converge')
-    return _havoc(st, names, W, trace)
+    return _havoc(st, names, W, trace, G)
 
 
-def _havoc(st, names, fields, trace):
+def _havoc(st, names, fields, trace, ghosts=()):
     h = st.copy()
+    for g in sorted(ghosts):
+        cur = h.ghost.get(g)
+        if is_expr(cur): h.ghost[g] = fresh('ghost_' + g, cur.sort())
     for name in names:
         v = h.env.get(name)
-        if v is None: continue
+        if v is None:
+            # a local first assigned inside the loop: at the loop head it is either unbound or holds the value of an
+            # earlier iteration; it is modelled as an arbitrary value (an UnboundLocalError is outside the model)
+            if not name.startswith('$'): h.env[name] = ZV('val', fresh(name, Val))
+            continue
         h.env[name] = refresh(v, name)
     for f in sorted(fields):
         if f in FIELDS: h.havoc_field(f)
@@ -134,7 +146,11 @@ def refresh(v, name):
 
 def _inv(ex, key):
     inv = ex.spec.invariants.get(key)
-    if inv is None: raise Unsupported(f'{ex.spec.qual}: loop `{key}` has no invariant in its contract')
+    if inv is None:
+        # a loop the contract does not know (new code): cut with the weakest invariant `True`.  This is sound (everything
+        # the loop may touch is forgotten); whatever the proof needed about it is then simply not available.
+        ex.spec.note_assumption(f'loop `{key}` has no invariant in the contract: cut with the trivial invariant')
+        return lambda lc: []
     return inv
 
 
@@ -280,8 +296,18 @@ def for_set(ex, s, st, it, item_of=None):
 
 
 # ---------------------------------------------------------------------------------------- while
+def bind_loop_locals(st, body):
+    """locals first assigned inside the loop exist (with an arbitrary value) from the loop entry on -- see _havoc"""
+    missing = [n for n in sorted(assigned_names(body)) if n not in st.env and not n.startswith('$')]
+    if not missing: return st
+    st = st.copy()
+    for n in missing: st.env[n] = ZV('val', fresh(n, Val))
+    return st
+
+
 def run_while(ex, s, st):
     key = loop_key(ex, s); inv = _inv(ex, key)
+    st = bind_loop_locals(st, s.body)
     pre = ex.spec.pre_view
     _oblige_inv(ex, key, 'establish', st, LoopCtx(key, st, st, pre), inv)
     h = havoc_loop(ex, st, s.body)
